@@ -3,9 +3,9 @@
 (S) specs/StepRegistry.tla   (P)+(MC) specs/StepRegistry_MC.tla   judge: specs/StepRegistry_Trace.tla
 
 TLC enumerates (a) one registration of every pattern of the big pool under every matcher kind and (b) every
-registration history over the small pool (matcher switches, module ends, default matcher, new / re-used functions),
-checks the design-level laws and emits each history with the predicted register results and the predicted result of
-every lookup.  The driver replays a history on the real code: the step modules of the history are written to a
+registration history of up to FullRegs registrations over the small pool (matcher switches, module ends, default
+matcher, new / re-used functions) plus a seeded hash sample of the longer ones, checks the design-level laws and
+emits each history with the predicted register results and the predicted result of every lookup.  The driver replays a history on the real code: the step modules of the history are written to a
 scratch directory and loaded with behave.runner_util.load_step_modules() (so "end of module" is the real reset to
 the default matcher), registrations go through the decorators of a fresh StepRegistry() while a fresh
 StepMatcherFactory() is installed, then every lookup (step type x text) is done with StepRegistry.find_match() and
@@ -315,7 +315,7 @@ def show_val(v):
 def run(chk):
     cfg = "StepRegistry_MC_quick.cfg" if chk.quick() else "StepRegistry_MC_thorough.cfg"
     workers = int(os.environ.get("VERIF_WORKERS") or 16)
-    r = chk.tlc("StepRegistry_MC", cfg, timeout=120 if chk.quick() else 800, workers=workers, env={"C11_SEED": chk.seed})
+    r = chk.tlc("StepRegistry_MC", cfg, timeout=400 if chk.quick() else 850, workers=workers, env={"C11_SEED": chk.seed})
     for name in r.violated:
         chk.violation("C11.design." + name, "design:%s" % name, "TLC: invariant %s violated in StepRegistry_MC (%s)" % (name, cfg))
     cases, seen = [], set()
@@ -335,8 +335,12 @@ def run(chk):
     chk.impl_traces = len(rows)
     pairs = set()
     found = 0
+    outcomes = {}
     for row in rows:
         regs = [(a["kind"], json.dumps(a["pat"])) for a in row["acts"] if a["a"] == "reg"]
+        for a in row["acts"]:
+            if a["a"] == "reg":
+                outcomes[a["res"]] = outcomes.get(a["res"], 0) + 1
         for l in row["looks"]:
             found += 1 if l["out"] == "match" else 0
             if len(regs) == 1:
@@ -357,6 +361,7 @@ def run(chk):
         nregs[n] = nregs.get(n, 0) + 1
     chk.extra["histories_by_registrations"] = {str(k): v for k, v in sorted(nregs.items())}
     chk.extra["lookups_bound"] = found
+    chk.extra["observed_register_results"] = outcomes
     chk.extra["distinct_single_pattern_lookups"] = len(pairs)
     chk.assumptions = [
         "parse / parse_type and the re module are part of the observed behaviour (third party, not a mutation target)",
